@@ -149,8 +149,10 @@ def build_graph(rng, root):
         k.base = 'pkg%d' % i
         if rng.random() < 0.15:
             # names that need care when they are written into the package table as a string literal
-            k.base = rng.choice(('pk"q%d', "pk'q%d", 'pk\\b%d', 'pk -%d', 'pk\\n%d')) % i
+            k.base = rng.choice(('pk"q%d', "pk'q%d", 'pk\\b%d', 'pk -%d', 'pk\\n%d', 'pk\u00ea%d', 'for\u00eat_%d', 'pk\u65e5\u672c%d')) % i
             feats.add('package_name_special_chars')
+            if any(ord(ch) > 127 for ch in k.base):
+                feats.add('package_name_non_ascii')
         k.opt = rng.random() < 0.25
         k.deps = []
         pkgs.append(k)
@@ -268,6 +270,10 @@ def build_graph(rng, root):
         elif k.file_dir == 'lib':
             feats.add('package_in_subdir')
         files[rel] = text
+        if k.base.startswith('pkg') and rng.random() < 0.35:
+            # a sub-package directory that has the package's name sits next to the package file
+            files[os.path.join(os.path.dirname(rel), k.base, 'part.lua')] = b'part=1\n'
+            feats.add('directory_named_like_package')
         k.rel = rel
         k.exp = exp
         k.exp_other = exp_other
@@ -601,7 +607,7 @@ def gates(m, tier):
               'require_form:stmt', 'require_form:assign', 'require_form:local', 'require_form:field', 'require_form:callarg',
               'require_form:chain', 'require_form:nestedfn', 'require_form:in_if', 'require_form:in_else', 'require_form:in_shortif',
               'require_form:in_loop', 'require_form:in_cond', 'error:missing', 'error:noargs', 'error:threeargs', 'error:nonstring',
-              'error:badoption', 'gameloop_with_comment_before_or_code_after', 'gameloop_name_as_last_component', 'dotted_gameloop_name', 'one_file_two_names_opposite_options', 'main_starts_with_comment'):
+              'error:badoption', 'gameloop_with_comment_before_or_code_after', 'gameloop_name_as_last_component', 'dotted_gameloop_name', 'package_name_non_ascii', 'directory_named_like_package', 'one_file_two_names_opposite_options', 'main_starts_with_comment'):
         if f.get(k, 0) < 2:
             missed.append('%s seen %d times' % (k, f.get(k, 0)))
     if mon.get('package_bodies_compared', 0) < 100:
